@@ -24,19 +24,6 @@ theorem varTyped_facts {var : XmlVar} (h : varTyped var = true) :
   obtain ⟨⟨⟨⟨⟨⟨⟨⟨h1, h2⟩, h3⟩, h4⟩, h5⟩, h6⟩, h7⟩, _⟩, _⟩ := h
   exact ⟨h1, h2, h3, h4, h5, h6, h7⟩
 
-theorem varTyped_types {var : XmlVar} (h : varTyped var = true) :
-    (var.clazz = none ∧ ∃ t, var.types = [.prim t] ∧ t ≠ .qname) ∨ (∃ k, var.clazz = some k ∧ var.types = [.cls k]) := by
-  simp only [varTyped, Bool.and_eq_true] at h
-  have ht := h.1.2
-  split at ht
-  · rename_i t hc hty
-    exact Or.inl ⟨hc, t, hty, by simpa using ht⟩
-  · rename_i k k' hc hty
-    have : k = k' := by simpa using ht
-    subst this
-    exact Or.inr ⟨k, hc, hty⟩
-  · cases ht
-
 theorem varTyped_wrapper {var : XmlVar} (h : varTyped var = true) (w : Str) (hw : wrapperName var.toVarCore = some w) :
     var.listElement = true ∧ var.localName ≠ w := by
   simp only [varTyped, Bool.and_eq_true] at h
@@ -209,21 +196,12 @@ theorem bindItem_null (e : BEnv) (rec : Rec) (Γ : Ctx) (cfg : ParserConfig) (m 
   | other => rw [hdef] at hd; cases hd
 
 theorem bindItem_prim (e : BEnv) (rec : Rec) (Γ : Ctx) (cfg : ParserConfig) (m : XmlMeta) (var : XmlVar)
-    (hv : varTyped var = true) (p : PVal) (ht : var.types = [.prim (pvalType p)]) :
+    (hv : varTyped var = true) (p : PVal) (ht : var.types = [.prim (pvalType p)]) (hqb : qnameBack e p = true) :
     bindItemWith e rec Γ cfg m var (encPrim p) = ND.pure (.prim p) := by
   obtain ⟨h1, h2, h3, h4, _, _, h7⟩ := varTyped_facts hv
   have h2' : var.toVarCore.isWildcard = false := h2
   have h4' : var.toVarCore.anyType = false := h4
   have h7' : var.toVarCore.tokens = false := h7
-  have hq : pvalType p ≠ .qname := by
-    rcases varTyped_types hv with ⟨_, t, hty, hne⟩ | ⟨k, _, hty⟩
-    · rw [ht] at hty
-      injection hty with h _
-      injection h with h
-      rw [h]; exact hne
-    · rw [ht] at hty
-      injection hty with h _
-      cases h
   have hty : var.toVarCore.types = [.prim (pvalType p)] := ht
   have key : Xs.Dict.bindText e cfg var (encPrim p) = .ok (.prim p) := by
     simp only [Xs.Dict.bindText, h3, Bool.false_eq_true, if_false, bindTextPlain, h2', h4', Bool.or_self, h7', hty]
@@ -231,14 +209,20 @@ theorem bindItem_prim (e : BEnv) (rec : Rec) (Γ : Ctx) (cfg : ParserConfig) (m 
     | str s => simp [encPrim, scalarType, pvalType, rawVal, rawScalar]
     | int i => simp [encPrim, scalarType, pvalType, rawVal, rawScalar]
     | bool b => simp [encPrim, scalarType, pvalType, rawVal, rawScalar]
-    | qname t => exact absurd rfl hq
+    | qname t =>
+      have hd : deOne e t (.prim .qname) [] = some (.qname t) := by simpa [qnameBack] using hqb
+      simp only [encPrim, scalarType, pvalType, Bool.not_false, Bool.true_and, serializeJ, serScalar, Except.map]
+      have hnc : ([TypeRef.prim PT.qname].contains (TypeRef.prim PT.str)) = false := by decide
+      simp only [hnc, Bool.false_eq_true, if_false]
+      unfold parseVar
+      simp only [Option.getD_none, h7', Bool.false_eq_true, if_false, hty, pvalType, deserialize, List.findSome?, hd]
   unfold bindItemWith
   simp only [h1, Bool.false_eq_true, if_false]
   cases p with
   | str s => simp only [encPrim]; rw [show J.str s = encPrim (.str s) from rfl, key]; rfl
   | int i => simp only [encPrim]; rw [show J.num i = encPrim (.int i) from rfl, key]; rfl
   | bool b => simp only [encPrim]; rw [show J.bool b = encPrim (.bool b) from rfl, key]; rfl
-  | qname t => exact absurd rfl hq
+  | qname t => simp only [encPrim]; rw [show J.str t = encPrim (.qname t) from rfl, key]; rfl
 
 theorem keysEq_false_of_not_mem {α} (d : List (Str × α)) (ks : List Str) (k : Str) (hk : k ∈ ks)
     (hn : k ∉ kvKeys d) : keysEq d ks = false := by
@@ -338,15 +322,16 @@ def isNoneV : Val → Bool
 
 theorem item_rt (e : BEnv) (Γ : Ctx) (fac : Factory) (n : Nat) (ih : IH e Γ fac n) (cfg : ParserConfig)
     (m : XmlMeta) (var : XmlVar) (hv : varTyped var = true) (x : Val)
-    (hx : itemOKj (valOKj e Γ fac n) Γ fac var x = true) :
+    (hx : itemOKj e (valOKj e Γ fac n) Γ fac var x = true) :
     ∃ j, encElemWith (encModelF Γ fac {} n) x = .ok j ∧ j.isNull = isNoneV x ∧ j.isArr = false ∧ j.native = true ∧
       bindItemWith e (bindDataclassF e Γ n) Γ cfg m var j = ND.pure x := by
   cases x with
   | none =>
     exact ⟨.null, rfl, rfl, rfl, rfl, bindItem_null e _ Γ cfg m var hv (by simpa [itemOKj] using hx)⟩
   | prim p =>
-    have ht : var.types = [.prim (pvalType p)] := by simpa [itemOKj] using hx
-    refine ⟨encPrim p, rfl, ?_, ?_, ?_, bindItem_prim e _ Γ cfg m var hv p ht⟩
+    have hx' : var.types = [.prim (pvalType p)] ∧ qnameBack e p = true := by simpa [itemOKj] using hx
+    have ht := hx'.1
+    refine ⟨encPrim p, rfl, ?_, ?_, ?_, bindItem_prim e _ Γ cfg m var hv p ht hx'.2⟩
     · cases p <;> rfl
     · cases p <;> rfl
     · cases p <;> rfl
@@ -429,7 +414,7 @@ theorem bindValue_nonarr (e : BEnv) (rec : Rec) (Γ : Ctx) (cfg : ParserConfig) 
 
 theorem value_rt_typed (e : BEnv) (Γ : Ctx) (fac : Factory) (n : Nat) (ih : IH e Γ fac n) (cfg : ParserConfig)
     (m : XmlMeta) (var : XmlVar) (hv : varTyped var = true) (x : Val)
-    (hx : typedValueOKj (valOKj e Γ fac n) Γ fac var x = true) :
+    (hx : typedValueOKj e (valOKj e Γ fac n) Γ fac var x = true) :
     ∃ j, encVarWith fac (encModelF Γ fac {} n) var x = .ok j ∧ j.isNull = isNoneV x ∧ j.native = true ∧
       varMatches (keyOf var.toVarCore) j var = true ∧
       ∃ j', unwrapValue var j = .ok j' ∧ (j'.isNull && var.listElement) = false ∧
@@ -494,7 +479,7 @@ theorem value_rt_typed (e : BEnv) (Γ : Ctx) (fac : Factory) (n : Nat) (ih : IH 
       cases hw : wrapperName var.toVarCore with
       | none => rfl
       | some w => have := (varTyped_wrapper hv w hw).1; rw [hl'] at this; cases this
-    have hitem : itemOKj (valOKj e Γ fac n) Γ fac var x = true := by
+    have hitem : itemOKj e (valOKj e Γ fac n) Γ fac var x = true := by
       cases x with
       | list xs => simp at hx
       | _ => exact hx
@@ -1279,8 +1264,8 @@ theorem valOKu_valOKj (e : BEnv) (Γ : Ctx) (fac : Factory) (huni : noSubclassPo
   | zero => intro c v h; simp [valOKu] at h
   | succ n ih =>
     intro c v h
-    have hitem : ∀ (var : XmlVar) (x : Val), itemOKu (valOKu e Γ fac n) Γ var x = true →
-        itemOKj (valOKj e Γ fac n) Γ fac var x = true := by
+    have hitem : ∀ (var : XmlVar) (x : Val), itemOKu e (valOKu e Γ fac n) Γ var x = true →
+        itemOKj e (valOKj e Γ fac n) Γ fac var x = true := by
       intro var x hx
       cases x with
       | obj k' fs' =>
